@@ -7,7 +7,7 @@ use vcore::jobj;
 use vcore::pools::{self, VALID_LABEL_NAMES};
 use vcore::prng::Rng;
 
-use crate::ctx::Ctx;
+use crate::ctx::{catch, Ctx};
 
 #[derive(Clone, Debug, PartialEq, Eq, PartialOrd, Ord)]
 struct KeyId {
@@ -64,6 +64,47 @@ pub fn run_case(cx: &mut Ctx) {
         }
         let mut vars_shuffled = vars.clone();
         rng.shuffle(&mut vars_shuffled);
+        // one descriptor in three is preceded by a refused one built on the same thread (bad or duplicated
+        // label name, variable label equal to a constant one, empty help, malformed name): a refusal
+        // must leave nothing behind that the next descriptor's identity could pick up
+        if rng.chance(1, 3) {
+            let other = rng.pick(&["c", "b_c", "x", "a", "zz"]).to_string();
+            let mut cm: HashMap<String, String> = HashMap::new();
+            let mut vs: Vec<String> = Vec::new();
+            let (n, h) = match rng.below(6) {
+                0 => {
+                    vs.push("not-a-label".to_string());
+                    (other, "help".to_string())
+                }
+                1 => {
+                    cm.insert("0bad".to_string(), "v".to_string());
+                    (other, "help".to_string())
+                }
+                2 => {
+                    vs.push("dup".to_string());
+                    vs.push("dup".to_string());
+                    (other, "help".to_string())
+                }
+                3 => {
+                    cm.insert("both".to_string(), rng.pick(&["", "a", "ab"]).to_string());
+                    vs.push("both".to_string());
+                    (other, "help".to_string())
+                }
+                4 => (other, String::new()),
+                _ => (format!("{}-", other), "help".to_string()),
+            };
+            let r = catch(|| Desc::new(n.clone(), h.clone(), vs.clone(), cm.clone()));
+            cx.part.count("refused_descriptors_interleaved", 1);
+            match r {
+                Err(p) => {
+                    cx.violation("descriptor-constructor-panicked", "Desc::new", p, jobj! {"fq" => n});
+                    return;
+                }
+                // whether such a descriptor is refused is C09's subject, not this property's
+                Ok(Ok(_)) => cx.part.count("interleaved_descriptor_accepted_not_judged_here", 1),
+                Ok(Err(_)) => {}
+            }
+        }
         let desc: Result<Desc, String> = match &via_opts {
             Some((ns, sub, name)) => {
                 let mut o = Opts::new(name.clone(), help.clone()).namespace(ns.clone()).subsystem(sub.clone());
